@@ -42,6 +42,26 @@ theorem rabs_mul_sq (k q : Rat) : rabs (k * k * q) = k * k * rabs q := by
       exact not_lt.2 this
     rw [if_neg this]
 
+theorem rabs_cases (q : Rat) : rabs q = q ∨ rabs q = -q := by
+  unfold rabs; split
+  · right; rfl
+  · left; rfl
+
+theorem rabs_unique {x q : Rat} (h0 : 0 ≤ x) (h : x = q ∨ x = -q) : x = rabs q := by
+  unfold rabs
+  split
+  · rcases h with h | h <;> linarith
+  · rcases h with h | h <;> linarith
+
+theorem rabs_mul (a b : Rat) : rabs (a * b) = rabs a * rabs b := by
+  symm
+  apply rabs_unique (mul_nonneg (rabs_nonneg a) (rabs_nonneg b))
+  rcases rabs_cases a with ha | ha <;> rcases rabs_cases b with hb | hb <;> rw [ha, hb]
+  · left; ring
+  · right; ring
+  · right; ring
+  · left; ring
+
 theorem smul_inj {k : Rat} (hk : k ≠ 0) {a b : Pt} : Pt.smul k a = Pt.smul k b ↔ a = b := by
   constructor
   · intro h
